@@ -64,6 +64,11 @@ FAULTS = {
     'hdr-len-4097': (lambda r: wire.MARKER + (4097).to_bytes(2, 'big') + b'\x02' + bytes(4097 - 19), 'header'),
     'hdr-ka-len-20': (lambda r: wire.MARKER + (20).to_bytes(2, 'big') + b'\x04\x00', 'header'),
     'hdr-update-len-22': (lambda r: wire.MARKER + (22).to_bytes(2, 'big') + b'\x02' + bytes(3), 'header'),
+    # a bare header (19 octets, the KEEPALIVE size) under a type that needs a body
+    'hdr-len19-update': (lambda r: wire.MARKER + b'\x00\x13\x02', 'header'),
+    'hdr-len19-notification': (lambda r: wire.MARKER + b'\x00\x13\x03', 'header'),
+    'hdr-len19-refresh': (lambda r: wire.MARKER + b'\x00\x13\x05', 'header'),
+    'hdr-len19-open': (lambda r: wire.MARKER + b'\x00\x13\x01', 'header'),
     'hdr-type-9': (lambda r: edev.bad_type(), 'header-type'),
     'hdr-type-0': (lambda r: wire.frame(0, b''), 'header-type'),
     # OPEN errors (RFC 4271 6.2)
@@ -278,9 +283,17 @@ STEPS = 12
 
 def run_one(args):
     (steps, hold), choices = args
-    cfg = edev.base_config(hold=hold)
+    variant = hold
+    extra = ''
+    if isinstance(hold, str):
+        # '<hold>-noribin': adj-rib-in off (and no API subscription to received messages): UPDATEs are not decoded at all
+        h, _, opt = hold.partition('-')
+        hold = int(h)
+        extra = {'noribin': 'adj-rib-in false;'}[opt]
+    cfg = edev.base_config(hold=hold, extra=extra)
     summary, tr = edev.run(Env, cfg, choices, steps, env_kwargs=dict(config_name='active', hold=hold, script=c05.SCRIPT), world_env={}, tail=1.5)
     summary['hold'] = hold
+    summary['variant'] = variant
     viols, outcome = oracle(summary)
     return (viols, outcome, tr.steps), tr.menus
 
@@ -369,11 +382,11 @@ def run(ctx: core.Ctx) -> None:
     thorough = ctx.tier != 'quick'
     ctx.rule = (f'{len(FAULTS)} fault kinds x every macro step (= session state) of a {STEPS}-step session script, one fault per run'
                 + (' , plus every run with one earlier benign deviation (split delivery, API command in flight, 1 s wait)' if thorough else '')
-                + '; hold time 9 and 0; non-trivial = distinct (fault, state, notifications, closed) outcome')
+                + '; hold time 9 and 0, and hold time 9 with adj-rib-in off; non-trivial = distinct (fault, state, notifications, closed) outcome')
     ctx.assumptions += ['state of injection = FSM state of the peer when the fault bytes are queued', 'RFC 7606 attribute errors may legally not reset the session']
     pool = mp.Pool(min(16, os.cpu_count() or 1))
     try:
-        for hold in (9, 0):
+        for hold in (9, 0, '9-noribin'):
             def record(choices, res, hold=hold):
                 viols, outcome, steps = res
                 ctx.count('executions')
